@@ -884,6 +884,54 @@ func ruleL6(r *Run) {
 			guarded[f] = true
 		}
 	}
+	// (b) a guarded slice/map field is never made an alias of another field or of a parameter:
+	// the balancers' working copies (effectiveWeights ...) are modified at run time and compared
+	// with the configured values they were copied from
+	p.EachFunc(func(pkg *packages.Package, fd *ast.FuncDecl) {
+		info := pkg.TypesInfo
+		params := map[types.Object]bool{}
+		for _, pv := range paramsOf(info, fd.Type) {
+			if pv != nil {
+				params[pv] = true
+			}
+		}
+		ast.Inspect(fd.Body, func(m ast.Node) bool {
+			as, ok := m.(*ast.AssignStmt)
+			if !ok || len(as.Lhs) != len(as.Rhs) {
+				return true
+			}
+			for i, l := range as.Lhs {
+				fv := fieldOf(info, l)
+				if fv == nil || !guarded[fv] {
+					continue
+				}
+				switch fv.Type().Underlying().(type) {
+				case *types.Slice, *types.Map:
+				default:
+					continue
+				}
+				rhs := ast.Unparen(as.Rhs[i])
+				base := rhs
+				if se, ok := base.(*ast.SliceExpr); ok {
+					base = ast.Unparen(se.X)
+				}
+				alias := ""
+				if of := fieldOf(info, base); of != nil && of != fv {
+					alias = "field " + of.Name()
+				}
+				if o := identObj(info, base); o != nil && params[o] {
+					alias = "parameter " + o.Name()
+				}
+				key := fmt.Sprintf("fresh storage for %s in %s", fv.Name(), p.DeclName(fd))
+				if alias != "" {
+					r.Viol(key, as.Pos(), fmt.Sprintf("the lock-guarded working field %s is set to %s, an alias of %s: run-time updates of %s also change the value it was derived from (a balancer's reduced weight can never be restored, configured values drift)", fv.Name(), types.ExprString(rhs), alias, fv.Name()))
+				} else {
+					r.Ok(key, as.Pos(), "not an alias of another field or of a parameter")
+				}
+			}
+			return true
+		})
+	})
 	p.EachFunc(func(pkg *packages.Package, fd *ast.FuncDecl) {
 		info := pkg.TypesInfo
 		// taken: local/result := x.f   (f guarded, slice or map typed)
@@ -938,4 +986,117 @@ func ruleL6(r *Run) {
 			})
 		}
 	})
+}
+
+// ---------------------------------------------------------------------------------------
+// P6 subscription ordering (C19)
+
+func init() {
+	register("P6", "the push client installs a topic's callback BEFORE it announces the subscription to the broker and removes it only AFTER the broker confirmed the unsubscription, so a message accepted while the call is in flight always finds its callback", 2, ruleP6)
+}
+
+func ruleP6(r *Run) {
+	p := r.P
+	for _, c := range []struct{ fn, first, firstRecv, second, secondRecv, why string }{
+		{"Prosumer.Subscribe", "Store", "callbacks", "subscribe", "proxy", "the subscription is announced to the broker before the callback is installed: a message accepted for the new topic while Subscribe is still running is dispatched to no callback and silently dropped"},
+		{"Prosumer.Unsubscribe", "unsubscribe", "proxy", "Delete", "callbacks", "the callback is removed before the broker confirmed the unsubscription: messages accepted in between are dropped"},
+	} {
+		key := "ordering in rpc/plugins/push." + c.fn
+		fd, pkg := p.DeclOf("rpc/plugins/push", c.fn)
+		if fd == nil {
+			r.Undec(key, 0, "function not found")
+			continue
+		}
+		info := pkg.TypesInfo
+		var a, b token.Pos
+		ast.Inspect(fd.Body, func(n ast.Node) bool {
+			call, ok := n.(*ast.CallExpr)
+			if !ok {
+				return true
+			}
+			if methodName(call) == c.first && recvFieldName(info, call) == c.firstRecv && !a.IsValid() {
+				a = call.Pos()
+			}
+			if methodName(call) == c.second && recvFieldName(info, call) == c.secondRecv && !b.IsValid() {
+				b = call.Pos()
+			}
+			return true
+		})
+		if !a.IsValid() || !b.IsValid() {
+			r.Undec(key, fd.Pos(), "callback table operation or broker call not found")
+			continue
+		}
+		r.Check(a < b, key, fd.Pos(), c.firstRecv+"."+c.first+" before "+c.secondRecv+"."+c.second, c.why)
+	}
+}
+
+// ---------------------------------------------------------------------------------------
+// L7 no append into a caller's slice (C15: SeparatePluginHandlers; generic)
+
+func init() {
+	register("L7", "no function appends into storage it received as a slice parameter (append(p[:k], ...) or via a local resliced from the parameter): filtering in place overwrites the caller's list, which the caller may reuse for a later Use/Unuse", 1, ruleL7)
+}
+
+func ruleL7(r *Run) {
+	p := r.P
+	nChecked := 0
+	p.EachFunc(func(pkg *packages.Package, fd *ast.FuncDecl) {
+		info := pkg.TypesInfo
+		params := map[types.Object]bool{}
+		for _, pv := range paramsOf(info, fd.Type) {
+			if pv != nil {
+				if _, ok := pv.Type().Underlying().(*types.Slice); ok {
+					params[pv] = true
+				}
+			}
+		}
+		if len(params) == 0 {
+			return
+		}
+		// locals that are reslices of a parameter
+		derived := map[types.Object]types.Object{}
+		ast.Inspect(fd.Body, func(n ast.Node) bool {
+			as, ok := n.(*ast.AssignStmt)
+			if !ok || len(as.Lhs) != len(as.Rhs) {
+				return true
+			}
+			for i, rhs := range as.Rhs {
+				if se, ok := ast.Unparen(rhs).(*ast.SliceExpr); ok {
+					if o := identObj(info, se.X); o != nil && params[o] {
+						if l := identObj(info, as.Lhs[i]); l != nil {
+							derived[l] = o
+						}
+					}
+				}
+			}
+			return true
+		})
+		n := 0
+		ast.Inspect(fd.Body, func(m ast.Node) bool {
+			call, ok := m.(*ast.CallExpr)
+			if !ok || !IsBuiltin(info, call, "append") || len(call.Args) < 2 {
+				return true
+			}
+			base := ast.Unparen(call.Args[0])
+			var from types.Object
+			if se, ok := base.(*ast.SliceExpr); ok {
+				if o := identObj(info, se.X); o != nil && params[o] {
+					from = o
+				}
+			} else if o := identObj(info, base); o != nil {
+				if pv, ok := derived[o]; ok {
+					from = pv
+				}
+			}
+			if from == nil {
+				return true
+			}
+			n++
+			r.Viol(fmt.Sprintf("append into parameter storage in %s #%d", p.DeclName(fd), n), call.Pos(), fmt.Sprintf("append writes into the backing array of the slice parameter %s: the caller's list is overwritten in place (a handler list reused for a second Use/Unuse installs or removes the wrong handlers)", from.Name()))
+			return true
+		})
+		nChecked++
+	})
+	r.cur = "L7"
+	r.Ok("functions with slice parameters scanned", 0, fmt.Sprintf("%d functions, no append into parameter storage", nChecked))
 }
